@@ -215,9 +215,44 @@ def m_slice_get(e, c, a):
     if is_sym(i):
         n = len(v.cells)
         if not e.branch(z3.ULT(i, n)): return NONE()
+        if n > 32 and not c.rstrip().endswith('_mut'):
+            r = class_read(e, v.cells, i)
+            if r is not None: return Some(r)
         k = e.concretize_index(i, n)
         return Some(Ref(v.cells[k]))
     return Some(Ref(v.cells[i])) if 0 <= i < len(v.cells) else NONE()
+
+
+def class_read(e, cells, i):
+    """read cells[i] for a symbolic in-range index of a large table of concrete values: fork once per distinct value
+    (constraint: i lies in one of the index intervals holding that value) instead of once per index"""
+    keys = []
+    for c_ in cells:
+        k = _ckey(c_.v)
+        if k is None: return None
+        keys.append(k)
+    classes = {}
+    for idx, k in enumerate(keys): classes.setdefault(k, []).append(idx)
+    if len(classes) > 64: return None
+    for k, idxs in classes.items():
+        runs = []; lo = prev = idxs[0]
+        for x in idxs[1:]:
+            if x != prev + 1: runs.append((lo, prev)); lo = x
+            prev = x
+        runs.append((lo, prev))
+        cond = zor([zand([z3.UGE(i, a), z3.ULE(i, b)]) if a != b else (i == a) for a, b in runs])
+        if e.branch(cond): return Ref(Cell(clone(cells[idxs[0]].v)))
+    raise Infeasible()
+
+
+def _ckey(v):
+    if isinstance(v, (bool, int)) : return ('i', v)
+    if isinstance(v, Enum):
+        ks = [_ckey(c_.v) for c_ in v.f]
+        if any(k is None for k in ks): return None
+        return ('e', v.name, v.variant, tuple(ks))
+    if isinstance(v, RStr) and isinstance(v.s, str): return ('s', v.s)
+    return None
 
 
 def range_bounds_sym(e, r, n):
